@@ -473,9 +473,17 @@ def check(pid, tier):
     else:
         r, m = run_cases(binary, pid, tier, seed, rundir)
         if r.returncode != 0:
-            # the harness itself died (abort / stack overflow): a C02-style failure of the implementation
-            p = write_replay(rundir, pid, 0, {"property": pid, "kind": "harness-crash", "returncode": r.returncode,
-                                              "output": (r.stdout or "")[-3000:]})
+            # the harness itself died: a case that did not terminate (watchdog, exit 3) or an abort / stack overflow
+            hang = None
+            for root_, _, files_ in os.walk(rundir):
+                if "hang.txt" in files_:
+                    hang = open(os.path.join(root_, "hang.txt")).read()
+            if hang:
+                p = write_replay(rundir, pid, 0, {"property": pid, "kind": "oracle-failure", "case": hang,
+                                                  "what": "the implementation did not terminate on this case within the watchdog limit (hang)"})
+            else:
+                p = write_replay(rundir, pid, 0, {"property": pid, "kind": "harness-crash", "returncode": r.returncode,
+                                                  "output": (r.stdout or "")[-3000:]})
             violations.append((p, ""))
         else:
             n, dis, ofail, sfail = compare(rundir)
